@@ -433,51 +433,70 @@ def main(module, argv=None):
         merged = merge(results)
         violations = list(merged["violations"])
 
-        # deaths: confirm alone (attaches the report to exactly one case)
+        # deaths: a death whose (case, report) matches a known finding needs no confirmation; the others are
+        # re-run alone, in parallel, which attaches the report to exactly one case
+        known = load_known()
+        classify = getattr(module, "classify", None)
+
+        def mech_of(vio):
+            if not classify:
+                return None
+            try:
+                m = classify(vio)
+            except Exception:
+                return None
+            if m:
+                for k in known:
+                    if k.get("mechanism") == m and k.get("status") == "known" and \
+                            vio["property"] in k.get("properties", [k.get("property")]):
+                        return m
+            return None
+
         seen = set()
+        todo = []
         for d in deaths:
             key = (d["variant"], digest(d["case"]))
             if key in seen:
                 continue
             seen.add(key)
-            if args.replay:
-                confirmed = d
+            vio = {"property": prop, "kind": "hang" if d["status"] == "timeout" else "process-death",
+                   "detail": {"rc": d["rc"], "signal": _signame(d["rc"]), "report": d["log"]},
+                   "case": d["case"], "variant": d["variant"]}
+            if args.replay or mech_of(vio):
+                violations.append(vio)
             else:
-                r = run_alone(modname, d["variant"], tier, seed, d["case"], builds[d["variant"]],
-                              max(stall * 2, 60), workdir)
-                if r["status"] == "ok":
-                    if d["status"] == "timeout":
-                        inconclusive.append("watchdog fired once but the case returns when run alone: %s" % canon(d["case"])[:300])
-                    else:
-                        inconclusive.append("worker died (rc=%s) but the open case passes alone: %s ... %s" % (
-                            d["rc"], canon(d["case"])[:300], d["log"][:600]))
-                    continue
-                confirmed = dict(d, status=r["status"], rc=r["rc"], log=r["log"])
-            violations.append({
-                "property": prop,
-                "kind": "hang" if confirmed["status"] == "timeout" else "process-death",
-                "detail": {"rc": confirmed["rc"], "signal": _signame(confirmed["rc"]), "report": confirmed["log"]},
-                "case": confirmed["case"], "variant": confirmed["variant"],
-            })
+                todo.append((d, vio))
+        cap = 48
+        if len(todo) > cap:
+            inconclusive.append("%d worker deaths; only the first %d were re-run alone" % (len(todo), cap))
+        from concurrent.futures import ThreadPoolExecutor
+
+        def confirm(item):
+            d, vio = item
+            return run_alone(modname, d["variant"], tier, seed, d["case"], builds[d["variant"]],
+                             max(stall * 2, 60), workdir)
+        with ThreadPoolExecutor(max_workers=min(16, max(1, len(todo[:cap])))) as ex:
+            confirmations = list(ex.map(confirm, todo[:cap]))
+        for (d, vio), r in zip(todo[:cap], confirmations):
+            if r["status"] == "ok":
+                if d["status"] == "timeout":
+                    inconclusive.append("watchdog fired once but the case returns when run alone: %s" % canon(d["case"])[:300])
+                else:
+                    inconclusive.append("worker died (rc=%s) but the open case passes alone: %s ... %s" % (
+                        d["rc"], canon(d["case"])[:300], d["log"][:600]))
+                continue
+            vio["kind"] = "hang" if r["status"] == "timeout" else "process-death"
+            vio["detail"] = {"rc": r["rc"], "signal": _signame(r["rc"]), "report": r["log"]}
+            violations.append(vio)
+        for d, vio in todo[cap:]:
+            vio["detail"]["unconfirmed"] = True
+            violations.append(vio)
 
         # classify against known findings
-        known = load_known()
-        classify = getattr(module, "classify", None)
         reported, knownhits = [], {}
         for vio in violations:
-            mech = None
-            if classify:
-                try:
-                    mech = classify(vio)
-                except Exception:
-                    mech = None
-            entry = None
+            mech = mech_of(vio)
             if mech:
-                for k in known:
-                    if k.get("mechanism") == mech and k.get("status") == "known" and \
-                            vio["property"] in k.get("properties", [k.get("property")]):
-                        entry = k
-            if entry:
                 knownhits.setdefault(mech, []).append(vio)
             else:
                 reported.append(vio)
@@ -513,20 +532,33 @@ def main(module, argv=None):
             desc = [k for k in known if k.get("mechanism") == mech][0].get("description", "")
             print("KNOWN-FINDING: property=%s %s: %s (re-observed %d times)" % (prop, mech, desc, len(vs)))
         outs = set()
+        sigf = getattr(module, "signature", None)
+        bysig = {}
         for vio in reported:
-            name = "%s-%s-%s.json" % (vio["property"], vio["kind"].replace(" ", "_")[:24], digest(vio["case"])[:10])
-            path = os.path.join(replay_dir, name)
-            if path in outs:
-                continue
-            outs.add(path)
-            with open(path, "w") as f:
-                json.dump(dict(vio, seed=seed, tier=tier), f, indent=1, default=_default)
-            if len(outs) <= 25:
-                print("VIOLATION property=%s replay=%s kind=%s %s" % (
-                    vio["property"], path, vio["kind"], canon(vio["detail"])[:400]))
+            try:
+                sig = sigf(vio) if sigf else None
+            except Exception:
+                sig = None
+            sig = sig or (vio["kind"] + ":" + _report_sig(vio))
+            bysig.setdefault(sig, []).append(vio)
+        ev["coverage"]["violation_signatures"] = {k: len(v) for k, v in bysig.items()}
+        printed = 0
+        for sig in sorted(bysig, key=lambda k: -len(bysig[k])):
+            for j, vio in enumerate(bysig[sig][:3]):
+                name = "%s-%s-%s.json" % (vio["property"], vio["kind"].replace(" ", "_")[:24], digest(vio["case"])[:10])
+                path = os.path.join(replay_dir, name)
+                if path in outs:
+                    continue
+                outs.add(path)
+                with open(path, "w") as f:
+                    json.dump(dict(vio, seed=seed, tier=tier, signature=sig), f, indent=1, default=_default)
+                if j == 0 and printed < 40:
+                    printed += 1
+                    print("VIOLATION property=%s replay=%s kind=%s n=%d sig=%s %s" % (
+                        vio["property"], path, vio["kind"], len(bysig[sig]), sig[:120], canon(vio["detail"])[:300]))
             rc = 1
-        if len(outs) > 25:
-            print("... %d more violations (replay files written)" % (len(outs) - 25))
+        if len(bysig) > 40:
+            print("... %d more violation signatures (replay files written)" % (len(bysig) - 40))
 
         minimum = 1 if args.replay else module.MIN_NONTRIVIAL.get(tier, 2)
         if merged["counters"].get("harness_errors", 0):
@@ -553,6 +585,22 @@ def main(module, argv=None):
     finally:
         if not args.keep:
             shutil.rmtree(workdir, ignore_errors=True)
+
+
+def _report_sig(vio):
+    det = vio.get("detail") or {}
+    rep = det.get("report") if isinstance(det, dict) else None
+    if rep:
+        import re
+        m = re.search(r"ERROR: AddressSanitizer: ([\w-]+)", rep)
+        frames = re.findall(r"in (\S+) /\S*?/(src/[\w./-]+:\d+)", rep)
+        if m:
+            return m.group(1) + "@" + (frames[0][1] if frames else "?")
+        m = re.search(r"runtime error: ([^\n]{0,80})", rep)
+        if m:
+            return "ubsan:" + m.group(1)
+        return "signal:" + str(det.get("signal") or det.get("rc"))
+    return canon(det)[:80]
 
 
 def _signame(rc):
